@@ -35,6 +35,15 @@ TransTermNoClamp(e, l, w, m, sign, t) == BTerm(<<sign, 1>>, m * TauFrom(e, l, w)
 
 SurfaceTerms(e, tp, w, m) == BTerm(<<1, 1>>, m * TauFrom(e, 1, w), tp[1])
 
+\* "the temperature has not changed": an implementation that keeps the Planck array of the previous layer while the
+\* new temperature is within its tolerance of the PREVIOUS layer's (neighbouring table indices read as a table whose
+\* entries are closer than that tolerance; the reference follows the previous layer, so a stale source drifts over
+\* any accumulated difference).  Used only by the expected-counterexample variant "source_reused_if_close".
+CloseTIdx(a, b) == a = b \/ a = b + 1 \/ b = a + 1
+RECURSIVE ReusedSrcIdx(_, _)
+ReusedSrcIdx(tp, l) == IF l = 1 THEN tp[1]
+                       ELSE IF CloseTIdx(tp[l], tp[l - 1]) THEN ReusedSrcIdx(tp, l - 1) ELSE tp[l]
+
 LayerTerms(e, tp, l, w, m, C, variant) ==
     CASE variant = "code" ->
            TransTerm(e, l + 1, w, m, C, 1, tp[l]) \o TransTerm(e, l, w, m, C, -1, tp[l])
@@ -42,6 +51,8 @@ LayerTerms(e, tp, l, w, m, C, variant) ==
            TransTermNoClamp(e, l + 1, w, m, 1, tp[l]) \o TransTerm(e, l, w, m, C, -1, tp[l])
       [] variant = "range_off_by_one" ->      \* layer..n / layer..n  instead of layer+1..n / layer..n
            TransTerm(e, l + 1, w, m, C, 1, tp[l]) \o TransTerm(e, l + 1, w, m, C, -1, tp[l])
+      [] variant = "source_reused_if_close" -> \* B of an earlier layer while the temperature "has not changed"
+           TransTerm(e, l + 1, w, m, C, 1, ReusedSrcIdx(tp, l)) \o TransTerm(e, l, w, m, C, -1, ReusedSrcIdx(tp, l))
 
 RECURSIVE LayersUpTo(_, _, _, _, _, _, _)
 LayersUpTo(e, tp, l, w, m, C, variant) ==
@@ -50,6 +61,17 @@ LayersUpTo(e, tp, l, w, m, C, variant) ==
 \* the whole intensity at angle 1/mu = m, wavenumber w
 Intensity(e, tp, w, m, C, variant) ==
     SurfaceTerms(e, tp, w, m) \o LayersUpTo(e, tp, Len(e), w, m, C, variant)
+
+\* The documented integral read per TABLE ENTRY (written without LayerTerms): B[t] carries the surface transmittance
+\* if the bottom layer is at t, plus the transmittance difference (above minus below, both clamped) of exactly the
+\* layers whose own temperature is t  --  "per layer, B(T_layer) times the difference of transmittances".
+RECURSIVE DocLayersAt(_, _, _, _, _, _, _)
+DocLayersAt(e, tp, l, w, m, C, t) ==
+    IF l = 0 THEN <<>>
+    ELSE DocLayersAt(e, tp, l - 1, w, m, C, t)
+         \o (IF tp[l] = t THEN TransTerm(e, l + 1, w, m, C, 1, 0) \o TransTerm(e, l, w, m, C, -1, 0) ELSE <<>>)
+DocCoefOf(e, tp, w, m, C, t) ==
+    BCoefAll((IF tp[1] = t THEN BTerm(<<1, 1>>, m * TauFrom(e, 1, w), 0) ELSE <<>>) \o DocLayersAt(e, tp, Len(e), w, m, C, t))
 
 \* licensed excess of the coefficient sum: the un-clamped surface term when the column saturates
 ClampExcess(e, w, m, C) == IF ClampedFrom(e, 1, C) THEN DPow2(<<1, 1>>, m * TauFrom(e, 1, w)) ELSE <<>>
@@ -167,6 +189,13 @@ CoefNonNeg ==
 OwnTemperaturesOnly ==
     LayersDone => \A a \in 1..NA : \A w \in 1..NW : \A i \in 1..Len(inten[a][w]) :
         inten[a][w][i][4] \in {tp[l] : l \in 1..NL}
+
+\* every table entry carries exactly the weight of the layers AT that temperature (none of the consequences below
+\* -- telescoping, non-negativity, own temperatures, identity, bounds -- can tell a stale source from the right one:
+\* config MC_Emission_refute_source refutes this clause and nothing else)
+PerLayerSource ==
+    LayersDone => \A a \in 1..NA : \A w \in 1..NW : \A t \in 1..NT :
+        DEq(BCoefOf(inten[a][w], t), DocCoefOf(e, tp, w, QInvMu(Quad, a), ClampE, t))
 
 IsothermalIdentity ==
     (LayersDone /\ Isothermal) => \A a \in 1..NA : \A w \in 1..NW :
